@@ -5,12 +5,12 @@ P="$1"; ID="$2"; TIER="${3:-quick}"
 cd /repo || exit 2
 if ! git diff --quiet; then echo "repo dirty"; exit 2; fi
 if ! git apply "$P" 2>/tmp/apply.err; then
-  if ! git apply --3way "$P" 2>>/tmp/apply.err; then echo "APPLY-FAILED $(head -3 /tmp/apply.err)"; git checkout -- . ; exit 2; fi
+  if ! git apply --3way "$P" 2>>/tmp/apply.err; then echo "APPLY-FAILED $(head -3 /tmp/apply.err)"; git reset -q --hard HEAD; exit 2; fi
 fi
 cd /verif
 ./run "$ID" "$TIER" > /tmp/seedcheck.$$.log 2>&1
 rc=$?
-cd /repo && git checkout -- . && git clean -fdq -- . 2>/dev/null
+cd /repo && git reset -q --hard HEAD && git clean -fdq 2>/dev/null
 git -C /verif checkout -- evidence 2>/dev/null
 case $rc in
  0) echo "MISSED ($ID $TIER)";;
